@@ -47,6 +47,14 @@ def main(chk):
         for h in ('h_c20_index4d', 'h_c20_index3d'):
             r = sc.run(h, din); q = native.call(h, din)
             nval += 1
+            if r.status == 'memory' and r.error[0] in ('uninitialised-decision', 'uninitialised-pointer') and q.get('status') == 0:
+                # the index arithmetic used the result of an out-of-range double -> unsigned conversion (poison in LLVM, undefined in C++) for a
+                # point of the declared box: not a translator mismatch but a candidate violation, decided by the containing-voxel oracle on the native run
+                rep = replay_contains(native, h, din)
+                if rep['reproduced']:
+                    chk.ob('%s/validation input/in-box point is indexed in the voxel that contains it' % h, 'violated', True, 0, detail=rep)
+                    chk.violation('C20/O1/%s/point indexed in a voxel that does not contain it' % ('uspg_4d' if '4d' in h else 'uspg_3d'), '%s at %r: %s; irsym: %s' % (h, din, rep['what'], r.error[1]), rep)
+                    continue
             if r.status != 'ok' or r.iout != q['i'] or not all(api.same_double(a, b) for a, b in zip(r.dout, q['d'])):
                 mism += 1; chk.note('validation mismatch %s %r: %r vs %r' % (h, din, (r.status, r.error, r.iout), q))
     chk.validation = {'programs': 2, 'inputs': nval, 'mismatches': mism}
@@ -146,6 +154,26 @@ def main(chk):
                         chk.note('%s: exact-real counterexample does not survive rounding (%s)' % (nm, rep['what']))
                 else:
                     chk.ob(nm, st, True, dt)
+            # containing voxel (exact reals): origin + idx*v <= p, and p <= origin + (idx+1)*v (closed: the upper face belongs to the last voxel)
+            org = [S.R(x) for x in r.dout[0:3]]
+            for a, ax in enumerate('xyz'):
+                nm = '%s/O2 exact-real/the index on axis %s designates the voxel that contains the point' % (label, ax)
+                i_r = S.i2r(idx[a]) if isinstance(idx[a], S.Node) else S.const(idx[a])
+                lo_ = S.add(org[a], S.mul(i_r, Wr['v'])); hi_ = S.add(lo_, Wr['v'])
+                t = time.time()
+                st, model = SV.prove(z, pc, S.band(S.cmp('le', lo_, Wr['p' + ax]), S.cmp('le', Wr['p' + ax], hi_)), 60000)
+                dt = time.time() - t
+                if st == 'violated':
+                    m2 = {k: float(Fraction(v)) for k, v in model.items() if k in NAMES}
+                    din2 = [float(m2.get(n, 0.0)) for n in NAMES]
+                    rep = replay_contains(native, h, din2)
+                    chk.ob(nm, 'violated' if rep['reproduced'] else 'unknown', True, dt, detail=rep)
+                    if rep['reproduced']:
+                        chk.violation('C20/O1/%s/point indexed in a voxel that does not contain it' % label, '%s: %s' % (nm, rep['what']), rep)
+                    else:
+                        chk.note('%s: exact-real counterexample does not survive rounding (%s)' % (nm, rep['what']))
+                else:
+                    chk.ob(nm, st, True, dt)
             break
 
     # ---- O4/O5 retrievability and neighbourhood completeness on the real containers (exact reals) ----
@@ -160,6 +188,21 @@ def main(chk):
         'update_dimensions and get_3d_voxel_index of uspg_4d/uspg_3d are executed symbolically from the IR. O1: the IEEE-754 expression DAG of every path is printed as C '
         'and cbmc decides, per axis, that any point inside the declared box maps to an index < voxel count (all doubles within the stated magnitudes). O2 decides the same in exact reals with z3. '
         'O3: with symbolic voxel counts and indices z3 decides that the linear index and the allocated voxel count equal the mathematical values (no 32-bit wrap). Counterexamples are replayed natively.'))
+
+def replay_contains(native, h, din):
+    """native run: the voxel index returned for the in-box point must designate the voxel (of the grid's own origin and voxel size) that contains the point"""
+    q = native.call(h, din)
+    if q['status'] != 0 or len(q['i']) < 6 or len(q['d']) < 3: return {'reproduced': False, 'what': 'native run failed %r' % (q.get('status'),)}
+    nb = q['i'][0:3]; idx = q['i'][3:6]; org = q['d'][0:3]; v = din[6]
+    inbox = all(din[a] <= din[7 + a] <= din[3 + a] for a in range(3))
+    bad = []
+    for a, ax in enumerate('xyz'):
+        p = din[7 + a]
+        lo = org[a] + idx[a] * v; hi = org[a] + (idx[a] + 1) * v
+        tol = 4 * abs(v) * 2.0 ** -52 * max(1.0, abs(p) / abs(v), nb[a])
+        if idx[a] >= nb[a] or p < lo - tol or (p > hi + tol and idx[a] != nb[a] - 1):
+            bad.append('%s: point %r, voxel %d of %d spans [%r, %r]' % (ax, p, idx[a], nb[a], lo, hi))
+    return {'reproduced': bool(bad) and inbox, 'what': 'native: ' + '; '.join(bad) if bad else 'native index designates the containing voxel', 'din': din, 'box_contains_point': inbox}
 
 def replay_index(native, h, model):
     if not model: return {'reproduced': False, 'what': 'no model'}
